@@ -636,6 +636,24 @@ def wellformed(progs):
     return True
 
 
+def ends_outside_pause(progs):
+    """the only requirement of the Lean theorems `no_deadlock` /
+    `terminates_under_strong_fairness` (Controller.WF): no program ends
+    inside a pause section (pause_on_next sets the flag, cont clears it -
+    also a cont that raises because the thread was not pausing)"""
+    for p in progs:
+        paused = False
+        for tok in p:
+            op, arg = parse_op(tok)
+            if op == 'p':
+                paused = True
+            elif op == 'c':
+                paused = False
+        if paused:
+            return False
+    return True
+
+
 def gen_progs(rng, big):
     nthr = rng.choice([1, 1, 2, 2, 2, 3 if big else 2])
     wf = rng.random() < 0.7
@@ -677,6 +695,8 @@ def gen_progs(rng, big):
                      'p', 'w', 'c', 'p', 'c', 'qd']))
         if wf and paused:
             p.append('c')
+        if not wf and rng.random() < 0.6 and not ends_outside_pause([p]):
+            p.append('c')     # arbitrary order / ids, but ends outside pause
         progs.append(p)
     return progs
 
@@ -764,6 +784,7 @@ def oracle(case, impl, R):
     fails = []
     progs = case['progs']
     wf = wellformed(progs)
+    wf_live = ends_outside_pause(progs)
     oplog = impl['oplog']
     cmd_of = impl['cmd_of']
     log = impl['log']
@@ -864,8 +885,9 @@ def oracle(case, impl, R):
                               'no solver progress after wait() returned '
                               '(step %d) without cont()' % since,
                               'progress at %r' % bad))
-    # nobody blocked forever (well-formed programs only)
-    if wf and not all_done:
+    # nobody blocked forever: for every program set that does not end inside
+    # a pause section (Lean: no_deadlock, terminates_under_strong_fairness)
+    if wf_live and not all_done:
         pend = f['pending']
         if not f['enabled']:
             sp = pend[0]
@@ -884,15 +906,16 @@ def oracle(case, impl, R):
                         p[0] == 'acq' and str(p[1]).startswith('c')
                         for t, p in pend.items() if t):
                     key = 'C18:deadlock:get_result-while-paused'
-            fails.append((key, 'every thread of a well-formed program '
-                          'finishes; nobody is blocked forever',
+            fails.append((key, 'every thread of a program set that does not '
+                          'end inside a pause section finishes; nobody is '
+                          'blocked forever',
                           'no thread enabled; pending %r' % (
                               {t: p[:2] for t, p in pend.items()},)))
         elif impl['nsteps'] >= case.get('cap', 900):
             fails.append(('C18:no-progress-under-fair-schedule',
                           'a fair schedule completes the programs',
                           'still unfinished after %d steps' % impl['nsteps']))
-    elif wf and all_done and not f['enabled']:
+    elif wf_live and all_done and not f['enabled']:
         fails.append(('C18:deadlock:solver-blocked-after-all-cont',
                       'the solver runs on once every pause was continued',
                       'pending %r' % (f['pending'][0][:2],)))
@@ -1008,6 +1031,8 @@ def main():
             wf = wellformed(c['progs'])
             R.count('threads:%d' % len(c['progs']))
             R.count('well-formed' if wf else 'arbitrary')
+            if not wf and ends_outside_pause(c['progs']):
+                R.count('arbitrary-but-ends-outside-pause (liveness demanded)')
             R.count('style:' + c.get('style', 'given'))
             fin = im['final']
             if not fin['enabled']:
